@@ -34,7 +34,8 @@ RULE = ("history as in C08 applied to a (cached, uncached) pair, plus image-iter
         "hash of the operation list")
 PROBES = ["frame_revisited_after_setting_change", "cache_hit_observed", "render_fault_both_sides",
           "image_iterator", "image_size_changed_mid_iteration", "dynamic_size_resize",
-          "cache_int_equal_frame_count", "infinite_loops", "equal_setting_set_again"]
+          "cache_int_equal_frame_count", "infinite_loops", "equal_setting_set_again",
+          "animation_through_draw", "draw_revisits_frames"]
 COMPONENTS = {
     "real": ["RenderIterator (cache entries keyed by size/duration/args, padding after cache)",
              "ImageIterator._animate two-phase cache", "BaseImage._renderer / _render_image",
@@ -48,7 +49,61 @@ ASSUMPTIONS = ["the uncached iterator is correct (that is C08 / C11's business);
 def run(ch, ctx, fault=None):
     if ch.bool("image_iter", 0.3):
         return run_image(ch, ctx, fault)
+    if ch.bool("via_draw", 0.15):
+        return run_draw(ch, ctx, fault)
     return run_render(ch, ctx, fault)
+
+
+def run_draw(ch, ctx, fault):
+    """The same question asked through draw(): an animation drawn with caching requested
+    writes exactly the bytes of one drawn without, and renders no frame twice - also when it
+    loops for ever and ends by Ctrl-C."""
+    ctx.probe("animation_through_draw")
+    rows, cols = ch.int("rows", 6, 16), ch.int("cols", 8, 30)
+    n = ch.int("n", 2, 5)
+    loops = ch.pick("loops", (2, 3, -1, -1, -4))
+    size = (ch.int("w", 1, 4), ch.int("h", 1, 3))
+    dur = ch.int("dur", 1, 30)
+    cache_on = ch.pick("cache", (True, n, n + 1, 100))
+    stop_after = ch.int("stop_after", n, 3 * n + 1)      # sleeps before Ctrl-C (infinite loops)
+    ctx.op("draw(): frames=%d size=%s loops=%d cache=%r vs False%s"
+           % (n, size, loops, cache_on, "; Ctrl-C after %d frames" % stop_after if loops < 0 else ""))
+    ctx.key("draw", n, loops, size, cache_on, stop_after)
+    outputs, logs = [], []
+    for cache in (cache_on, False):
+        w = World(ctx, ch, fault, rows=rows, cols=cols, reuse=True, stdout_tty=True,
+                  buffered=False)
+        k, out = w.k, w.out
+        k.log_seams = False
+        hooks = simrenderable.Hooks(k)
+        with w:
+            SimR = simrenderable.make(w.ti.renderable, hooks)
+            r = SimR(n, dur, w.ti.geometry.Size(*size))
+            sleeps = [0]
+
+            def on_sleep(secs, sleeps=sleeps):
+                sleeps[0] += 1
+                if loops < 0 and sleeps[0] >= stop_after:
+                    raise KeyboardInterrupt
+
+            k.on_sleep = on_sleep
+            try:
+                r.draw(loops=loops, cache=cache, check_size=False)
+            except Exception as e:
+                raise Violation("draw_raised", {"exc": repr(e), "cache": cache}, "draw")
+            finally:
+                k.on_sleep = None
+            out.drain()
+            outputs.append(bytes(out.sink))
+            logs.append([fno for (_t, fno, _s, _c, _d, _f) in hooks.render_log])
+    check(outputs[0] == outputs[1], "cached_animation_output_differs_from_uncached",
+          {"cached_len": len(outputs[0]), "uncached_len": len(outputs[1])}, "draw")
+    twice = sorted(f for f in set(logs[0]) if logs[0].count(f) > 1)
+    if len(logs[1]) > n:
+        ctx.probe("draw_revisits_frames")
+        ctx.nontrivial = True
+    check(not twice, "cached_frame_rendered_twice",
+          {"frames": twice, "renders": logs[0], "loops": loops, "cache": cache_on}, "draw")
 
 
 def run_render(ch, ctx, fault):
